@@ -821,6 +821,16 @@ func (r *proxyStreamReceiver) recvReplicationMessages(
 				continue
 			}
 
+			// A target that has not acknowledged anything for this source yet must still hold back the aggregated
+			// ACK: nothing at or above the first task routed to it is confirmed until it reports progress.
+			r.ackMu.Lock()
+			for targetShardID, tasks := range tasksByTargetShard {
+				if _, ok := r.ackByTarget[targetShardID]; !ok {
+					r.ackByTarget[targetShardID] = tasks[0].SourceTaskId
+				}
+			}
+			r.ackMu.Unlock()
+
 			// Retry across the whole target set until all sends succeed (or shutdown)
 			sentByTarget := make(map[history.ClusterShardID]bool, len(tasksByTargetShard))
 			loggedByTarget := make(map[history.ClusterShardID]bool, len(tasksByTargetShard))
